@@ -493,7 +493,22 @@ func (w *walker) metrics(md pmetric.Metrics) {
 type Mode struct {
 	All  bool     `json:"all"`
 	List []string `json:"list"`
+	// Cipher parameters: nil = the factory default (rounds 10, key_length 128).  Config has no
+	// Validate, so every integer is a configuration the processor starts with.
+	Rounds    *int `json:"rounds,omitempty"`
+	KeyLength *int `json:"key_length,omitempty"`
 }
+
+func (m Mode) apply(cfg *obf.Config) {
+	if m.Rounds != nil {
+		cfg.Rounds = *m.Rounds
+	}
+	if m.KeyLength != nil {
+		cfg.KeyLength = *m.KeyLength
+	}
+}
+
+func ip(i int) *int { return &i }
 
 type Case struct {
 	Mode Mode  `json:"mode"`
@@ -572,6 +587,7 @@ func runCase(c Case, counters map[string]int) (viol []string) {
 	cfg := f.CreateDefaultConfig().(*obf.Config)
 	cfg.EncryptAll = c.Mode.All
 	cfg.EncryptAttributes = append([]string{}, c.Mode.List...)
+	c.Mode.apply(cfg)
 	listed := map[string]bool{}
 	for _, k := range c.Mode.List {
 		listed[k] = true
@@ -768,6 +784,25 @@ func cases(tier string) []Case {
 			out = append(out, Case{Mode: m, Seed: seed, Docs: []Doc{{Sig: "traces", Shape: 7, A: []int{1, 2, 3, 4, 5, 6, 7, 8, 9, 10, 11}}, {Sig: "traces", Shape: 7, A: []int{11, 10, 9, 8, 7, 6, 5, 4, 3, 2, 1}}, {Sig: "traces", Shape: 7, A: []int{2, 2, 2}}}})
 		}
 	}
+	// cipher parameters: every small number of rounds and a ladder of key lengths (the cipher
+	// refuses its input for some of them; whatever the processor then does must still be
+	// structure preserving and a deterministic injection), documents with several equal-length
+	// keys and values
+	for _, base := range []Mode{{All: true}, {List: []string{"secret"}}} {
+		for _, rounds := range []int{-1, 0, 1, 2, 3, 10} {
+			for _, kl := range []int{0, 1, 16, 128} {
+				if rounds == 10 && kl == 128 {
+					continue
+				}
+				m := base
+				m.Rounds, m.KeyLength = ip(rounds), ip(kl)
+				for _, sig := range []string{"traces", "logs", "metrics"} {
+					out = append(out, Case{Mode: m, Seed: 1, Docs: []Doc{{Sig: sig, Shape: 7, A: []int{1, 2, 3, 4, 5, 6, 7, 8, 9, 10, 11}}, {Sig: sig, Shape: 3, A: []int{2, 12}}, {Sig: sig, Shape: 7, A: []int{11, 10, 9, 8, 7, 6, 5, 4, 3, 2, 1}}}})
+				}
+				out = append(out, Case{Mode: m, Seed: 1, Docs: []Doc{{Sig: "strings", Shape: 2}}})
+			}
+		}
+	}
 	// exhaustive string layer: all strings of <= 3 characters over a 5-character alphabet as values of one instance
 	out = append(out, Case{Mode: Mode{All: true}, Seed: 1, Docs: []Doc{{Sig: "strings", Shape: 3}}})
 	out = append(out, Case{Mode: Mode{All: true}, Seed: 0, Docs: []Doc{{Sig: "strings", Shape: 3}}})
@@ -824,6 +859,7 @@ func runStringCase(c Case, counters map[string]int) []string {
 	cfg := f.CreateDefaultConfig().(*obf.Config)
 	cfg.EncryptAll = c.Mode.All
 	cfg.EncryptAttributes = c.Mode.List
+	c.Mode.apply(cfg)
 	var got plog.Logs
 	ln, _ := consumer.NewLogs(func(_ context.Context, ld plog.Logs) error { got = ld; return nil })
 	lp, err := f.CreateLogs(context.Background(), settings(), cfg, ln)
